@@ -122,7 +122,8 @@ class OperatorPar(OperatorBase):
                 depth += 1
             elif expr.right.startswith(self.symbol_separator) and depth==1:
                 expr.remove(self.symbol_separator)
-                self.args.append(Expression(expr.pop_left()))                
+                self.args.append(Expression(expr.pop_left()))
+                continue  # the character behind the separator has to be examined as well
             elif expr.right.startswith(self.symbol_close):
                 depth -= 1
                 if depth==0:
